@@ -72,12 +72,24 @@ def theorems_of(module):
     return names
 
 
+def prop_modules(prop):
+    """Props/Cxx.lean plus extension files Props/Cxx_<name>.lean"""
+    d = os.path.join(LEAN_DIR, "PfVerif", "Props")
+    names = sorted(f[:-5] for f in os.listdir(d) if f == prop + ".lean" or (f.startswith(prop + "_") and f.endswith(".lean")))
+    return ["PfVerif.Props." + n for n in names]
+
+
 def audit(prop, build_ok):
     """returns (obligations, discharged, problems, axioms_used)"""
-    mod = f"PfVerif.Props.{prop}"
-    thms = theorems_of(mod)
+    mods = prop_modules(prop)
+    thms = [t for m in mods for t in theorems_of(m)]
     problems = []
-    for m in lean_closure(mod):
+    closure = []
+    for m0 in mods:
+        for m in lean_closure(m0):
+            if m not in closure:
+                closure.append(m)
+    for m in closure:
         f = os.path.join(LEAN_DIR, *m.split(".")) + ".lean"
         src = strip_comments(open(f).read())
         for i, l in enumerate(src.split("\n")):
@@ -87,7 +99,8 @@ def audit(prop, build_ok):
         return len(thms), 0, problems, {}
     tmp = os.path.join(LEAN_DIR, f".audit_{prop}.lean")
     with open(tmp, "w") as fh:
-        fh.write(f"import {mod}\n")
+        for m in mods:
+            fh.write(f"import {m}\n")
         for t in thms:
             fh.write(f"#print axioms {t}\n")
     rc, out = sh(["lake", "env", "lean", tmp], cwd=LEAN_DIR)
@@ -161,12 +174,16 @@ def main():
     if rc != 0:
         print("BROKEN: model driver does not build\n" + out[-3000:])
         sys.exit(2)
-    rc, out = sh(["lake", "build", f"PfVerif.Props.{prop}"], cwd=LEAN_DIR)
+    rc, out = sh(["lake", "build"] + prop_modules(prop), cwd=LEAN_DIR)
     build_ok = rc == 0
     broken_thms = [] if build_ok else failing_theorems(prop, out)
     build_tail = "" if build_ok else out[-3000:]
     if tier == "thorough" and build_ok:
-        mods = [m for m in lean_closure(f"PfVerif.Props.{prop}")]
+        mods = []
+        for m0 in prop_modules(prop):
+            for m in lean_closure(m0):
+                if m not in mods:
+                    mods.append(m)
         rc2, out2 = sh(["lake", "env", "leanchecker"] + mods, cwd=LEAN_DIR, timeout=3600)
         leanchecker = {"rc": rc2, "tail": out2[-300:], "modules": len(mods)}
         if rc2 != 0:
@@ -189,6 +206,12 @@ def main():
         mod = importlib.import_module(f"props.{prop.lower()}")
         mod.run(ctx)
         ctx.flush()
+        ext_dir = os.path.join(HERE, "props")
+        for f in sorted(os.listdir(ext_dir)):
+            if f.startswith(prop.lower() + "_") and f.endswith(".py"):
+                ext = importlib.import_module("props." + f[:-3])
+                ext.run(ctx)
+                ctx.flush()
     except DriverError as e:
         print(f"BROKEN: {e}")
         sys.exit(2)
@@ -257,7 +280,7 @@ def main():
     cov = {
         "obligations": obligations,
         "discharged": discharged,
-        "checker_cmd": f"cd lean && lake build PfVerif.Props.{prop} && lake env lean <#print axioms of every theorem>"
+        "checker_cmd": f"cd lean && lake build {' '.join(prop_modules(prop))} && lake env lean <#print axioms of every theorem>"
                        + (" && lake env leanchecker <closure>" if leanchecker else ""),
         "trusted_base": lv.get("trusted_base", []) + [
             "Lean 4.33.0 kernel; axioms used: " + ", ".join(sorted({a for v in axioms.values() for a in v}) or ["none"]),
